@@ -210,4 +210,342 @@ theorem intRange_small_reaches (ft : FT) (hs : smallReach ft = true) (hc : 0 < f
   simp only [intRange, hng, if_false]
   exact hws k rest ts
 
+/-! ### the parts of a magnitude between `min` and `max` lie inside the bounds of the two switches -/
+
+/-- `pt` is lexicographically between `p0` and `p1` -/
+structure Between (p0 p1 pt : Int × UInt64 × UInt64) : Prop where
+  lo : p0.1 ≤ pt.1
+  lolex : p0.1 = pt.1 → (p0.2.1.toNat < pt.2.1.toNat ∨ (p0.2.1.toNat = pt.2.1.toNat ∧ p0.2.2.toNat ≤ pt.2.2.toNat))
+  hi : pt.1 ≤ p1.1
+  hilex : pt.1 = p1.1 → (pt.2.1.toNat < p1.2.1.toNat ∨ (pt.2.1.toNat = p1.2.1.toNat ∧ pt.2.2.toNat ≤ p1.2.2.toNat))
+
+theorem si_in_bounds (f : FFmt) (hf : f.WF) {p0 p1 pt : Int × UInt64 × UInt64}
+    (hok : PartsOK f pt.1 pt.2.1.toNat pt.2.2.toNat) (hb : Between p0 p1 pt) :
+    (siBounds f.S p0 p1 pt.1 false false).1 ≤ pt.2.1 ∧ pt.2.1 ≤ (siBounds f.S p0 p1 pt.1 false false).2 := by
+  obtain ⟨E0, I0, F0⟩ := p0
+  obtain ⟨E1, I1, F1⟩ := p1
+  obtain ⟨E, I, F⟩ := pt
+  have h1 := hb.lo; have h2 := hb.lolex; have h3 := hb.hi; have h4 := hb.hilex
+  have hI := hok.si_lt
+  dsimp only at *
+  have hS : f.S - fracBits E f.S < 64 := by have := hf.hSE; omega
+  simp only [UInt64.le_iff_toNat_le]
+  unfold siBounds
+  simp only [Bool.false_eq_true, if_false]
+  by_cases c3 : E0 = E1
+  · subst c3
+    have : E = E0 := by omega
+    subst this
+    simp only [if_true]
+    have a := h2 rfl; have b := h4 rfl
+    constructor <;> omega
+  · simp only [c3, if_false]
+    by_cases c4 : E = E0
+    · subst c4
+      simp only [if_true]
+      rw [bitmask64_toNat hS]
+      have a := h2 rfl
+      constructor <;> omega
+    · simp only [c4, if_false]
+      by_cases c5 : E = E1
+      · subst c5
+        simp only [if_true]
+        have b := h4 rfl
+        constructor
+        · simp
+        · omega
+      · simp only [c5, if_false]
+        rw [bitmask64_toNat hS]
+        constructor
+        · simp
+        · omega
+
+theorem sf_in_bounds (f : FFmt) (hf : f.WF) {p0 p1 pt : Int × UInt64 × UInt64}
+    (hok : PartsOK f pt.1 pt.2.1.toNat pt.2.2.toNat) (hb : Between p0 p1 pt) :
+    (sfBounds f.S p0 p1 pt.1 false false pt.2.1).1 ≤ pt.2.2 ∧ pt.2.2 ≤ (sfBounds f.S p0 p1 pt.1 false false pt.2.1).2 := by
+  obtain ⟨E0, I0, F0⟩ := p0
+  obtain ⟨E1, I1, F1⟩ := p1
+  obtain ⟨E, I, F⟩ := pt
+  have h1 := hb.lo; have h2 := hb.lolex; have h3 := hb.hi; have h4 := hb.hilex
+  have hF := hok.sf_lt
+  dsimp only at *
+  have hS : fracBits E f.S < 64 := by have := hf.hSE; have := fracBits_le E f.S; omega
+  simp only [UInt64.le_iff_toNat_le]
+  unfold sfBounds
+  simp only [Bool.false_eq_true, if_false]
+  by_cases c3 : E0 = E1 ∧ I0 = I1
+  · obtain ⟨rfl, rfl⟩ := c3
+    have : E = E0 := by omega
+    subst this
+    simp only [and_self, if_true]
+    have a := h2 rfl; have b := h4 rfl
+    constructor <;> omega
+  · simp only [c3, if_false]
+    by_cases c4 : E = E0 ∧ I = I0
+    · obtain ⟨rfl, rfl⟩ := c4
+      simp only [and_self, if_true]
+      rw [bitmask64_toNat hS]
+      have a := h2 rfl
+      constructor <;> omega
+    · simp only [c4, if_false]
+      by_cases c5 : E = E1 ∧ I = I1
+      · obtain ⟨rfl, rfl⟩ := c5
+        simp only [and_self, if_true]
+        have b := h4 rfl
+        constructor
+        · simp
+        · omega
+      · simp only [c5, if_false]
+        rw [bitmask64_toNat hS]
+        constructor
+        · simp
+        · omega
+
+/-- the parts of magnitudes `u0 ≤ u ≤ u1` -/
+theorem between_of_le (f : FFmt) (hf : f.WF) (lo hi t : UInt64)
+    (h1 : (f.mag lo).toNat ≤ (f.mag t).toNat) (h2 : (f.mag t).toNat ≤ (f.mag hi).toNat) :
+    Between (f.parts lo) (f.parts hi) (f.parts t) := by
+  obtain ⟨a0, b0, c0⟩ := parts_spec f hf lo
+  obtain ⟨a1, b1, c1⟩ := parts_spec f hf hi
+  obtain ⟨a, b, c⟩ := parts_spec f hf t
+  have l1 := parts_le_of f h1
+  have l2 := parts_le_of f h2
+  refine ⟨?_, ?_, ?_, ?_⟩
+  · rw [a0, a]; exact l1.1
+  · rw [a0, a, b0, b, c0, c]; exact l1.2
+  · rw [a, a1]; exact l2.1
+  · rw [a, a1, b, b1, c, c1]; exact l2.2
+
+theorem partsOK_parts (f : FFmt) (hf : f.WF) (t : UInt64) : PartsOK f (f.parts t).1 (f.parts t).2.1.toNat (f.parts t).2.2.toNat := by
+  obtain ⟨a, b, c⟩ := parts_spec f hf t
+  rw [a, b, c]; exact (parts_ok f _ (f.mag_lt hf t)).1
+
+/-! ### `genUfloatRange` -/
+
+theorem clearLow_zero (sfMin sf : UInt64) (i : Nat) : clearLow sfMin 0 i sf = sf := rfl
+
+/-- the significand group hands on the significand parts of any magnitude of the range whose
+    exponent is `e` (no overflow flag raised) -/
+theorem ufloatSignif_reaches (ft : FT) (f : FFmt) (hf : f.WF) {p0 p1 pt : Int × UInt64 × UInt64}
+    (hok : PartsOK f pt.1 pt.2.1.toNat pt.2.2.toNat) (hb : Between p0 p1 pt) (fuel : Nat) :
+    Reaches (ufloatSignif ft f.S p0 p1 pt.1 false false (fuel + 1)) (pt.2.1, pt.2.2) := by
+  obtain ⟨hsi1, hsi2⟩ := si_in_bounds f hf hok hb
+  obtain ⟨hsf1, hsf2⟩ := sf_in_bounds f hf hok hb
+  have R1 := uintRangeUnbiased_reaches ft _ _ pt.2.1 hsi1 hsi2 fuel
+  have hmaxR : len64 ((sfBounds f.S p0 p1 pt.1 false false pt.2.1).2 - (sfBounds f.S p0 p1 pt.1 false false pt.2.1).1) < 2 ^ 64 := by
+    have := len64_le_64 ((sfBounds f.S p0 p1 pt.1 false false pt.2.1).2 - (sfBounds f.S p0 p1 pt.1 false false pt.2.1).1)
+    omega
+  have R2 := uintNoReject_reaches
+    (UInt64.ofNat (len64 ((sfBounds f.S p0 p1 pt.1 false false pt.2.1).2 - (sfBounds f.S p0 p1 pt.1 false false pt.2.1).1)))
+    (UInt64.ofNat (len64 ((sfBounds f.S p0 p1 pt.1 false false pt.2.1).2 - (sfBounds f.S p0 p1 pt.1 false false pt.2.1).1)))
+    (UInt64.le_refl _)
+  have R3 := uintRangeUnbiased_reaches ft _ _ pt.2.2 hsf1 hsf2 fuel
+  have R := Reaches.bind (q := fun (x : UInt64 × Bool × Bool) (k : UInt64 × UInt64 → Prog) =>
+      uintNoReject (UInt64.ofNat (len64 ((sfBounds f.S p0 p1 pt.1 false false x.1).2 - (sfBounds f.S p0 p1 pt.1 false false x.1).1))) fun r' =>
+        uintRange ft (sfBounds f.S p0 p1 pt.1 false false x.1).1 (sfBounds f.S p0 p1 pt.1 false false x.1).2 false (fuel + 1) fun sf _ _ =>
+          k (x.1, clearLow (sfBounds f.S p0 p1 pt.1 false false x.1).1
+            (len64 ((sfBounds f.S p0 p1 pt.1 false false x.1).2 - (sfBounds f.S p0 p1 pt.1 false false x.1).1) - r'.toNat) 0 sf))
+    (b := (pt.2.1, pt.2.2)) R1
+    (Reaches.bind (q := fun (r' : UInt64) (k : UInt64 × UInt64 → Prog) =>
+        uintRange ft (sfBounds f.S p0 p1 pt.1 false false pt.2.1).1 (sfBounds f.S p0 p1 pt.1 false false pt.2.1).2 false (fuel + 1) fun sf _ _ =>
+          k (pt.2.1, clearLow (sfBounds f.S p0 p1 pt.1 false false pt.2.1).1
+            (len64 ((sfBounds f.S p0 p1 pt.1 false false pt.2.1).2 - (sfBounds f.S p0 p1 pt.1 false false pt.2.1).1) - r'.toNat) 0 sf))
+      R2 (by
+        have := R3.map (fun (y : UInt64 × Bool × Bool) => (pt.2.1, clearLow (sfBounds f.S p0 p1 pt.1 false false pt.2.1).1
+          (len64 ((sfBounds f.S p0 p1 pt.1 false false pt.2.1).2 - (sfBounds f.S p0 p1 pt.1 false false pt.2.1).1) -
+            (UInt64.ofNat (len64 ((sfBounds f.S p0 p1 pt.1 false false pt.2.1).2 - (sfBounds f.S p0 p1 pt.1 false false pt.2.1).1))).toNat) 0 y.1))
+        simp only [ofNat_toNat_small hmaxR, Nat.sub_self, clearLow_zero] at this
+        simpa only [ofNat_toNat_small hmaxR, Nat.sub_self, clearLow_zero] using this))
+  obtain ⟨ws, hws⟩ := R
+  exact ⟨ws, fun k rest ts => hws k rest ts⟩
+
+/-- exponents of formats with at most 11 exponent bits are small -/
+theorem parts_exp_small (f : FFmt) (hf : f.WF) (hE : f.E ≤ 11) (t : UInt64) :
+    -1024 ≤ (f.parts t).1 ∧ (f.parts t).1 ≤ 2048 ∧ (f.parts t).1 + f.bias < 2048 ∧ 0 ≤ (f.parts t).1 + f.bias := by
+  have hok := partsOK_parts f hf t
+  have h1 := hok.e_lo; have h2 := hok.e_hi
+  have hb : f.bias < 1024 := by
+    rw [f.bias_eq hf]
+    have : 2 ^ (f.E - 1) ≤ 2 ^ 10 := Nat.pow_le_pow_right (by decide) (by omega)
+    omega
+  have hp : 2 ^ f.E ≤ 2 ^ 11 := Nat.pow_le_pow_right (by decide) hE
+  omega
+
+/-- **`genUfloatRange` hands on the parts of every magnitude between those of its bounds** -/
+theorem ufloatRange_reaches (ft : FT) (hs : smallReach ft = true) (hc : 0 < ft.coinHalf ∧ ft.coinHalf < thrNever)
+    (f : FFmt) (hf : f.WF) (hE : f.E ≤ 11) (lo hi t : UInt64)
+    (hassert : (f.ge0 lo && f.fle lo hi) = true)
+    (h1 : (f.mag lo).toNat ≤ (f.mag t).toNat) (h2 : (f.mag t).toNat ≤ (f.mag hi).toNat) (fuel : Nat) :
+    Reaches (fun (k : Int × UInt64 × UInt64 → Prog) => ufloatRange ft f lo hi (fuel + 1) (fun e si sf => k (e, si, sf)))
+      (f.parts t) := by
+  have hb := between_of_le f hf lo hi t h1 h2
+  have hok := partsOK_parts f hf t
+  obtain ⟨l1, l2, l3, l4⟩ := parts_exp_small f hf hE lo
+  obtain ⟨u1, u2, u3, u4⟩ := parts_exp_small f hf hE hi
+  obtain ⟨t1, t2, _, _⟩ := parts_exp_small f hf hE t
+  have RE := (intRange_small_reaches ft hs hc (f.parts lo).1 (f.parts hi).1 (f.parts t).1 hb.lo hb.hi (by omega) (by omega) fuel).group
+    floatExpLabel false encTri
+  have hte : (Int64.ofInt (f.parts t).1).toInt = (f.parts t).1 := ofInt_toInt_small (by omega)
+  have hget : vTriGet (encTri (Int64.ofInt (f.parts t).1, false, false)) = ((f.parts t).1, false, false) := by
+    rw [vTriGet_enc, hte]
+  have RS := ((ufloatSignif_reaches ft f hf hok hb fuel).group floatSignifLabel false encPair).map
+    (fun v2 => ((f.parts t).1, (vPairGet v2).1, (vPairGet v2).2))
+  rw [vPairGet_enc] at RS
+  have R := Reaches.bind (q := fun (v : Val) (k : Int × UInt64 × UInt64 → Prog) =>
+      Prog.group floatSignifLabel false
+        (ufloatSignif ft f.S (f.parts lo) (f.parts hi) (vTriGet v).1 (vTriGet v).2.1 (vTriGet v).2.2 (fuel + 1)
+          fun x => .ret (encPair x))
+        (fun _ => false)
+        (fun v2 => k ((vTriGet v).1, (vPairGet v2).1, (vPairGet v2).2))) (b := f.parts t) RE (by
+      simp only [hget]
+      exact RS)
+  obtain ⟨ws, hws⟩ := R
+  refine ⟨ws, fun k rest ts => ?_⟩
+  have := hws k rest ts
+  simp only [ufloatRange, hassert, Bool.not_true, Bool.false_eq_true, if_false]
+  exact this
+
+/-! ### from the parts back to the bit pattern -/
+
+/-- a word of the format's width is its magnitude plus the sign bit -/
+theorem word_decomp (f : FFmt) (hf : f.WF) (t : UInt64) (ht : t.toNat < 2 ^ (f.S + f.E + 1)) :
+    t.toNat = (f.mag t).toNat + (if f.isNeg t then 2 ^ (f.S + f.E) else 0) := by
+  rw [f.mag_toNat hf, f.isNeg_iff hf, Nat.testBit_eq_decide_div_mod_eq]
+  have hd : t.toNat / 2 ^ (f.S + f.E) < 2 := by
+    apply Nat.div_lt_of_lt_mul
+    rw [Nat.pow_succ] at ht; exact ht
+  have hdm := Nat.div_add_mod t.toNat (2 ^ (f.S + f.E))
+  generalize t.toNat / 2 ^ (f.S + f.E) = q at hd hdm ⊢
+  have hcases : q = 0 ∨ q = 1 := by omega
+  rcases hcases with h | h
+  · subst h; simp at hdm ⊢; omega
+  · subst h; simp at hdm ⊢; omega
+
+theorem word_determined (f : FFmt) (hf : f.WF) (a b : UInt64) (ha : a.toNat < 2 ^ (f.S + f.E + 1)) (hb : b.toNat < 2 ^ (f.S + f.E + 1))
+    (hm : f.mag a = f.mag b) (hn : f.isNeg a = f.isNeg b) : a = b := by
+  apply UInt64.toNat_inj.mp
+  rw [word_decomp f hf a ha, word_decomp f hf b hb, hm, hn]
+
+theorem ufromParts_parts (f : FFmt) (hf : f.WF) (t : UInt64) :
+    f.ufromParts (f.parts t).1 (f.parts t).2.1 (f.parts t).2.2 = f.mag t := by
+  apply UInt64.toNat_inj.mp
+  rw [ufromParts_toNat f hf (partsOK_parts f hf t)]
+  obtain ⟨a, b, c⟩ := parts_spec f hf t
+  rw [a, b, c]
+  exact (parts_ok f _ (f.mag_lt hf t)).2
+
+/-- `floatNNFromParts(sign, parts)` gives the bit pattern back -/
+theorem fromParts_parts (f : FFmt) (hf : f.WF) (t : UInt64) (ht : t.toNat < 2 ^ (f.S + f.E + 1)) :
+    f.fromParts (f.isNeg t) (f.parts t).1 (f.parts t).2.1 (f.parts t).2.2 = t := by
+  simp only [FFmt.fromParts, ufromParts_parts f hf t]
+  have hml := f.mag_lt hf t
+  have hmm : f.mag (f.mag t) = f.mag t := f.mag_of_lt hf hml
+  have hmn : f.isNeg (f.mag t) = false := f.isNeg_of_lt hf hml
+  cases hn : f.isNeg t
+  · simp only [Bool.false_eq_true, if_false]
+    exact word_determined f hf _ _ (Nat.lt_of_lt_of_le hml (Nat.pow_le_pow_right (by decide) (by omega))) ht hmm (by rw [hmn, hn])
+  · simp only [if_true]
+    have hlt : (f.fneg (f.mag t)).toNat < 2 ^ (f.S + f.E + 1) := by
+      simp only [FFmt.fneg, UInt64.toNat_xor, f.signBit_toNat hf]
+      apply Nat.xor_lt_two_pow
+      · exact Nat.lt_of_lt_of_le hml (Nat.pow_le_pow_right (by decide) (by omega))
+      · exact Nat.pow_lt_pow_right (by decide) (by omega)
+    exact word_determined f hf _ _ hlt ht (by rw [f.mag_fneg hf, hmm]) (by rw [f.isNeg_fneg hf, hmn, hn]; rfl)
+
+/-! ### `Float32Range` / `Float64Range`: every value of the range is produced -/
+
+theorem R_case1 {n0 n1 : Bool} {m0 m1 mt : Nat} (hge : (!n0 || decide (m0 = 0)) = true)
+    (h1 : K n0 m0 ≤ K false mt) (h2 : K false mt ≤ K n1 m1) : m0 ≤ mt ∧ mt ≤ m1 := by
+  cases n0 <;> cases n1 <;> simp only [K, Bool.false_eq_true, if_false, if_true] at h1 h2 <;> simp at hge <;> omega
+
+theorem R_case2 {n0 n1 : Bool} {m0 m1 mt : Nat} (hge : (!n0 || decide (m0 = 0)) = false)
+    (hle : (n1 || decide (m1 = 0)) = true) (h1 : K n0 m0 ≤ K true mt) (h2 : K true mt ≤ K n1 m1) : m1 ≤ mt ∧ mt ≤ m0 := by
+  cases n0 <;> cases n1 <;> simp only [K, Bool.false_eq_true, if_false, if_true] at h1 h2 <;> simp at hge hle <;> omega
+
+theorem R_case3 {n0 n1 nt : Bool} {m0 m1 mt : Nat} (hge : (!n0 || decide (m0 = 0)) = false)
+    (hle : (n1 || decide (m1 = 0)) = false) (h1 : K n0 m0 ≤ K nt mt) (h2 : K nt mt ≤ K n1 m1) :
+    n0 = true ∧ n1 = false ∧ (nt = false → mt ≤ m1) ∧ (nt = true → mt ≤ m0) := by
+  cases n0 <;> cases n1 <;> cases nt <;> simp only [K, Bool.false_eq_true, if_false, if_true] at h1 h2 <;> simp at hge hle <;>
+    (refine ⟨rfl, rfl, ?_, ?_⟩ <;> intro h <;> first | omega | cases h)
+
+/-- the values `Float32Range/Float64Range(min, max)` can produce: in range, not NaN, and with the
+    sign the range admits (a range on one side of zero produces the zero of that side only) -/
+def FloatTarget (f : FFmt) (min max t : UInt64) : Prop :=
+  FloatOK f min max t ∧ t.toNat < 2 ^ (f.S + f.E + 1) ∧
+  (f.ge0 min = true → f.isNeg t = false) ∧ (f.ge0 min = false → f.le0 max = true → f.isNeg t = true)
+
+/-- **every float the range allows is produced by some bit stream** (formats with at most 11
+    exponent bits: float32 and float64) -/
+theorem floatValue_reaches (ft : FT) (hs : smallReach ft = true) (hc : 0 < ft.coinHalf ∧ ft.coinHalf < thrNever)
+    (f : FFmt) (hf : f.WF) (hE : f.E ≤ 11) (min max t : UInt64) (hok : floatRangeOK f min max = true)
+    (ht : FloatTarget f min max t) (fuel : Nat) : Reaches (floatValue ft f min max (fuel + 1)) t := by
+  obtain ⟨⟨hfle1, hfle2, _⟩, htw, hsg1, hsg2⟩ := ht
+  simp only [floatRangeOK, Bool.and_eq_true, Bool.not_eq_true'] at hok
+  obtain ⟨_, hfle⟩ := hok
+  rw [f.fle_eq] at hfle1 hfle2
+  have k1 := of_decide_eq_true hfle1
+  have k2 := of_decide_eq_true hfle2
+  -- one branch: sign `sg`, bounds `lo`, `hi`
+  have branch : ∀ (lo hi : UInt64), (f.ge0 lo && f.fle lo hi) = true →
+      (f.mag lo).toNat ≤ (f.mag t).toNat → (f.mag t).toNat ≤ (f.mag hi).toNat →
+      Reaches (fun (k : UInt64 → Prog) => ufloatRange ft f lo hi (fuel + 1) (fun e si sf => k (f.fromParts (f.isNeg t) e si sf))) t := by
+    intro lo hi hassert h1 h2
+    have := (ufloatRange_reaches ft hs hc f hf hE lo hi t hassert h1 h2 fuel).map
+      (fun (x : Int × UInt64 × UInt64) => f.fromParts (f.isNeg t) x.1 x.2.1 x.2.2)
+    rw [fromParts_parts f hf t htw] at this
+    exact this
+  have R : Reaches (fun (k : UInt64 → Prog) =>
+      coin (if f.ge0 min then thrNever else if f.le0 max then thrAlways else ft.coinHalf) fun neg =>
+        if neg = true then ufloatRange ft f (if f.ge0 min then 0 else if f.le0 max then f.fneg max else 0) (f.fneg min) (fuel + 1)
+            (fun e si sf => k (f.fromParts true e si sf))
+        else ufloatRange ft f (if f.ge0 min then min else 0) max (fuel + 1) (fun e si sf => k (f.fromParts false e si sf))) t := by
+    refine Reaches.bind (p := coin _) (a := f.isNeg t) (q := fun neg k =>
+      if neg = true then ufloatRange ft f (if f.ge0 min then 0 else if f.le0 max then f.fneg max else 0) (f.fneg min) (fuel + 1)
+          (fun e si sf => k (f.fromParts true e si sf))
+      else ufloatRange ft f (if f.ge0 min then min else 0) max (fuel + 1) (fun e si sf => k (f.fromParts false e si sf))) ?_ ?_
+    · -- the sign coin
+      by_cases hge : f.ge0 min = true
+      · rw [hsg1 hge]; simp only [hge, if_true]; exact coin_reaches_false thrNever (by decide)
+      · simp only [Bool.not_eq_true] at hge
+        by_cases hle : f.le0 max = true
+        · rw [hsg2 hge hle]; simp only [hge, hle, Bool.false_eq_true, if_false, if_true]; exact coin_reaches_true thrAlways (by decide)
+        · simp only [Bool.not_eq_true] at hle
+          simp only [hge, hle, Bool.false_eq_true, if_false]
+          cases f.isNeg t
+          · exact coin_reaches_false _ hc.1
+          · exact coin_reaches_true _ hc.2
+    · -- the branch taken
+      by_cases hge : f.ge0 min = true
+      · have hn := hsg1 hge
+        rw [hn] at k1 k2
+        obtain ⟨a1, a2⟩ := R_case1 (by rw [← f.ge0_eq]; exact hge) k1 k2
+        have := branch min max (by simp [hge, hfle]) a1 a2
+        rw [hn] at this ⊢
+        simpa only [Bool.false_eq_true, if_false, hge, if_true] using this
+      · simp only [Bool.not_eq_true] at hge
+        by_cases hle : f.le0 max = true
+        · have hn := hsg2 hge hle
+          rw [hn] at k1 k2
+          obtain ⟨a1, a2⟩ := R_case2 (by rw [← f.ge0_eq]; exact hge) (by rw [← f.le0_eq]; exact hle) k1 k2
+          have := branch (f.fneg max) (f.fneg min) (by rw [f.ge0_fneg hf, f.fle_fneg hf]; simp [hle, hfle])
+            (by rw [f.mag_fneg hf]; exact a1) (by rw [f.mag_fneg hf]; exact a2)
+          rw [hn] at this ⊢
+          simpa only [if_true, hge, Bool.false_eq_true, if_false, hle] using this
+        · simp only [Bool.not_eq_true] at hle
+          obtain ⟨h0, h1, b1, b2⟩ := R_case3 (by rw [← f.ge0_eq]; exact hge) (by rw [← f.le0_eq]; exact hle) k1 k2
+          cases hn : f.isNeg t
+          · have := branch 0 max (by rw [f.ge0_eq, f.fle_eq, f.isNeg_zero, f.mag_zero, h1]; simp [K])
+              (by rw [f.mag_zero]; simp) (b1 hn)
+            rw [hn] at this
+            simpa only [Bool.false_eq_true, if_false, hge] using this
+          · have := branch 0 (f.fneg min) (by rw [f.ge0_eq, f.fle_eq, f.isNeg_zero, f.mag_zero, f.isNeg_fneg hf, f.mag_fneg hf, h0]; simp [K])
+              (by rw [f.mag_zero]; simp) (by rw [f.mag_fneg hf]; exact b2 hn)
+            rw [hn] at this
+            simpa only [if_true, hge, Bool.false_eq_true, if_false, hle] using this
+  obtain ⟨ws, hws⟩ := R
+  refine ⟨ws, fun k rest ts => ?_⟩
+  have := hws k rest ts
+  simp only [floatValue, floatRange]
+  exact this
+
 end Rapid
